@@ -252,6 +252,7 @@ func (svc *InsertServiceV2) setState(state int) {
 }
 
 func (svc *InsertServiceV2) fetchLoopIteration() {
+	svc.vtrace(5, nil, nil, nil, 0, nil)
 	if svc.client == nil {
 		var err error
 		svc.client, err = svc.V3Session()
